@@ -302,7 +302,7 @@ void PauliStringRef<W>::check_avoids_MPP(const CircuitInstruction &inst) {
 template <size_t W>
 void PauliStringRef<W>::do_instruction(const CircuitInstruction &inst) {
     for (const auto &t : inst.targets) {
-        if (t.has_qubit_value() && t.qubit_value() >= num_qubits &&
+        if (t.has_qubit_value() && t.qubit_value() >= num_qubits && inst.gate_type != GateType::MPAD &&
             !(GATE_DATA[inst.gate_type].flags & GATE_HAS_NO_EFFECT_ON_QUBITS)) {
             std::stringstream ss;
             ss << "The instruction '" << inst;
@@ -508,7 +508,7 @@ void PauliStringRef<W>::do_instruction(const CircuitInstruction &inst) {
 template <size_t W>
 void PauliStringRef<W>::undo_instruction(const CircuitInstruction &inst) {
     for (const auto &t : inst.targets) {
-        if (t.has_qubit_value() && t.qubit_value() >= num_qubits &&
+        if (t.has_qubit_value() && t.qubit_value() >= num_qubits && inst.gate_type != GateType::MPAD &&
             !(GATE_DATA[inst.gate_type].flags & GATE_HAS_NO_EFFECT_ON_QUBITS)) {
             std::stringstream ss;
             ss << "The instruction '" << inst;
